@@ -25,6 +25,11 @@ Proof. vm_compute. reflexivity. Qed.
 Lemma enough_pairs_lemma : (150 <=? List.length all_pairs)%nat = true.
 Proof. vm_compute. reflexivity. Qed.
 
+(* no generated reader (inside or outside the DSL) narrows an integer it read from the data with an `as`
+   cast where it sizes an array (e.g. a u32 count used `as u16`) *)
+Lemma no_narrowing_casts_lemma : narrowing_casts = [].
+Proof. vm_compute. reflexivity. Qed.
+
 (* what [compat] gives for each pair: a merged schema that is well formed with strict counts *)
 Lemma compat_merged R W : compat R W = true -> exists sch, merge R W = Some sch /\ wf_schema sch = true /\ strict_counts sch = true.
 Proof.
